@@ -3,8 +3,57 @@
 package io
 
 // Contracts for the verification machinery in /verif (comment-only; see /verif/DESIGN.md).
+// The object invariants (typeinv) of the types in this package are in /verif/contracts/vocab.spec.
 
 //@ func ToByteReader
-//@   ensures same_cell: cell(result) == cell(r)
+//@   ghostinit result
+//@   ensures same_cell [C02,C03,C09]: cell(result) == cell(r) && lim(result) == lim(r)
 //@   ensures nonnil: result != nil
-//@   ensures same_lim: lim(result) == lim(r)
+
+//@ func ToByteReadSeeker
+//@   ghostinit result
+//@   choose origin: freshobj(result) && typeis(result, "*v2/internal/io.discardingReadSeekerPlusByte") ==> sbase(result) == pos(r)
+//@   ensures same_cell [C03,C09]: cell(result) == cell(r) && lim(result) == lim(r)
+//@   ensures nonnil: result != nil
+//@   ensures seekable_same [C03]: implements(r, "io.ReadSeeker") ==> sbase(result) == sbase(r) && send(result) == send(r)
+//@   ensures plain_origin [C03]: !implements(r, "io.ReadSeeker") ==> sbase(result) == pos(r)
+
+//@ func (*readerPlusByte).ReadByte
+//@   implements (io.ByteReader).ReadByte
+
+//@ func (*readSeekerPlusByte).ReadByte
+//@   implements (io.ByteReader).ReadByte
+
+//@ func (*discardingReadSeekerPlusByte).ReadByte
+//@   implements (io.ByteReader).ReadByte
+
+//@ func (*discardingReadSeekerPlusByte).Read
+//@   assume stream_bound: 0 <= drsb.offset && drsb.offset <= 4611686018427387904
+//@   implements (io.Reader).Read
+
+//@ func (*discardingReadSeekerPlusByte).Seek
+//@   implements (io.Seeker).Seek
+
+//@ func NewOffsetWriter
+//@   ghostinit result
+//@   ensures init [C05,C12,C16]: wn(result) == off && result.base == off && result.w == w && result != nil
+
+//@ func (*OffsetWriteSeeker).Write
+//@   assume no_wrap: 0 <= wn(ow) && wn(ow) <= 4611686018427387904
+//@   implements (io.Writer).Write
+//@   modifies ow.offset, wn(ow), writes(ow.w), fsize(ow.w)
+//@   ghost before return: wn(ow) := ow.offset
+//@   call[WriterAt.WriteAt#0] assert at_position [C05,C16]: arg2 == old(wn(ow))
+//@   ensures base_kept: ow.base == old(ow.base)
+
+//@ func (*OffsetWriteSeeker).Position
+//@   ensures def [C05,C12,C16]: result == wrap_s64(wn(ow) - ow.base)
+
+//@ func (*OffsetWriteSeeker).Seek
+//@   requires no_seek_end: whence != 2
+//@   modifies ow.offset, wn(ow)
+//@   ghost before call[OffsetWriteSeeker.Position#0]: wn(ow) := ow.offset
+//@   ensures start [C12]: whence == 0 ==> wn(ow) == wrap_s64(offset + ow.base)
+//@   ensures cur [C12]: whence == 1 ==> wn(ow) == wrap_s64(old(wn(ow)) + offset)
+//@   ensures noerr [C12]: err == nil
+//@   ensures base_kept: ow.base == old(ow.base)
